@@ -729,6 +729,19 @@ def tools_save(vk, cfg):
     vk.frame_unchanged("field values", u, snap_u)
     if vk.sym and forces is None:
         vk.canary("Displacements are doubled", pd["Displacements"], 2 * snap_u)
+    if cfg["extra"]:
+        # a series of results saved with ONE dict of extra point data (a job callback does that): every file carries the
+        # displacements of ITS call, whatever an earlier call left in the caller's dict
+        fc2 = _fields(vk, cfg["field"])
+        u2 = vk.reals("u_second", u.shape, near=0.1, spread=0.5)
+        fc2.fields[0].values = u2
+        with stubbed_meshio(MeshioRecorder()) as rec2:
+            ok2, _ = returns_normally(vk, "save(region, second field, point_data=<the same dict>)", lambda: SV.save(fc2.fields[0].region, fc2, forces=forces, filename="out2.vtu", point_data=own_pd, cell_data=own_cd))
+        if ok2 and len(rec2.made) == 1:
+            pd2 = rec2.made[0].kw.get("point_data") or {}
+            vk.ensures_eq("second save with the same point_data dict: Displacements == the values given to THAT call", pd2["Displacements"], u2)
+            if vk.sym:
+                vk.ensures_true("second save: the caller's point data array is still passed through", pd2.get("Temperature") is own_T, "", backend="exec")
 
 
 @contract("C20", "Mesh.as_meshio_write", configs=[dict(dim=d, cell=c, kw=k) for d, c, k in [(1, "line", False), (2, "quad", True), (2, "triangle6", False), (3, "tetra", False), (3, "hexahedron", True)]], engine="E1")
